@@ -6,16 +6,26 @@ Trace == ndJsonDeserialize(IOEnv.VTRACE)
 VARIABLES l, cnt
 CntKey(f) == IF f = "jsonencode>jsondecode" THEN "jsonroundtrip" ELSE f
 CntKeys == {CntKey(f) : f \in TRefFns}
-Init == l = 1 /\ cnt = [events |-> 0, nontrivial |-> 0, decided |-> 0, rejected |-> 0] @@ [f \in CntKeys |-> 0]
+\* anti-vacuity: successful, decided format calls per verb letter (fmts, fmtd, fmtv, fmtq, fmtt)
+FmtVerbs == {"s", "d", "v", "q", "t"}
+FmtKey(c) == "fmt" \o c
+FmtKeys == {FmtKey(c) : c \in FmtVerbs}
+VerbOfKey(k) == CHOOSE c \in FmtVerbs : k = FmtKey(c)
+HasVerb(e, c) == e.fn = "format" /\ Len(e.a) >= 1 /\ e.a[1].st = "k" /\ c \in {StrOf(e.a[1])[i] : i \in 1..Len(StrOf(e.a[1]))}
+Init == l = 1 /\ cnt = [events |-> 0, nontrivial |-> 0, decided |-> 0, rejected |-> 0] @@ [f \in CntKeys |-> 0] @@ [k \in FmtKeys |-> 0]
+Bump(k, e, d) ==
+  IF k = "events" THEN 1
+  ELSE IF k = "decided" THEN (IF d THEN 1 ELSE 0)
+  ELSE IF k = "nontrivial" THEN (IF d /\ e.r.ok THEN 1 ELSE 0)
+  ELSE IF k = "rejected" THEN (IF d /\ ~e.r.ok THEN 1 ELSE 0)
+  ELSE IF k \in FmtKeys THEN (IF d /\ e.r.ok /\ HasVerb(e, VerbOfKey(k)) THEN 1 ELSE 0)
+  ELSE (IF d /\ e.fn \in TRefFns /\ k = CntKey(e.fn) THEN 1 ELSE 0)
 Next == /\ l <= Len(Trace)
         /\ LET e == Trace[l]
                d == TRefDecided(e) IN
            /\ \A x \in TRefFailed(e) \cup (IF e.r.ok /\ ~WellFormed(e.r.val) THEN {"C06.WellFormed"} ELSE {})
                        \cup (IF Len(e.rs) = 1 THEN {} ELSE {"C20.Pure"}) : PrintT(<<"VIOL", l, x>>)
-           /\ cnt' = [cnt EXCEPT !.events = @ + 1, !.decided = @ + (IF d THEN 1 ELSE 0),
-                                 !.nontrivial = @ + (IF d /\ e.r.ok THEN 1 ELSE 0),
-                                 !.rejected = @ + (IF d /\ ~e.r.ok THEN 1 ELSE 0),
-                                 ![IF e.fn \in TRefFns THEN CntKey(e.fn) ELSE "events"] = @ + (IF e.fn \in TRefFns /\ d THEN 1 ELSE 0)]
+           /\ cnt' = [k \in DOMAIN cnt |-> cnt[k] + Bump(k, e, d)]
         /\ l' = l + 1
         /\ (l = Len(Trace) => PrintT(<<"DONE", l, cnt'>>))
 =============================================================================
